@@ -178,6 +178,8 @@ func (g *gate) control() {
 		g.polls++
 		if busy > 0 {
 			idle = 0
+			// let the running goroutines run: the snapshot stops the world
+			time.Sleep(20 * time.Microsecond)
 			continue
 		}
 		g.mu.Lock()
